@@ -8,6 +8,8 @@ Dev_NoDropReport == {"NoDropReport"}
 Dev_WritesAfterDisconnect == {"WritesAfterDisconnect"}
 EnvNone == {}
 EnvDisc == {"disc"}
+EnvAge == {"age"}
+SizesAged == {16, 35, 99}      \* the same messages with a Message Expiry Interval property (5 bytes)
 SizesAll == {11, 30, 99}
 SizesNoOver == {11, 30}
 ===========================================================================
